@@ -3,7 +3,7 @@
   order of completions), the shape invariant `Good`, and their preservation by `deliver`.
 -/
 import PyGqlModel.AsyncExec
-import PyGqlModel.Spec.ExecSpec
+import PyGqlModel.Spec.AsyncExecSpec
 
 set_option linter.unusedVariables false
 set_option linter.unusedSimpArgs false
